@@ -335,6 +335,27 @@ func (fr *Frame) step(st *State, ins ssa.Instruction) bool {
 		}
 		fr.atAnchors(st, in, false, fr.resultNames(v))
 		if fr.parent == nil {
+			if r.dry == 0 && st.pc != "false" {
+				// cover: the return site must be reachable in the VC (an infeasible path would make
+				// every obligation on it hold vacuously), unless the contract declares it dead, in
+				// which case its unreachability is what has to be proved
+				site := fr.anchorName(in, "return")
+				dead := false
+				if fr.contract != nil {
+					for _, d := range fr.contract.Flags["dead"] {
+						if d == site || strings.HasPrefix(d, site+" ") {
+							dead = true
+						}
+					}
+				}
+				if dead {
+					r.obls = append(r.obls, &Obligation{Name: fr.fname + "/dead/" + site, Kind: "dead", Func: fr.fname, Pos: r.eng.pos(in.Pos()),
+						NFacts: r.facts.Len(), Pc: st.pc, Goal: "false", Text: "return site declared dead is unreachable"})
+				} else {
+					r.obls = append(r.obls, &Obligation{Name: fr.fname + "/vacuity/reach-" + site, Kind: "vacuity", Func: fr.fname, Pos: r.eng.pos(in.Pos()),
+						NFacts: r.facts.Len(), Pc: st.pc, Goal: "false", Text: "return site reachable (expected: not refutable)"})
+				}
+			}
 			fr.checkEnsures(st, in, v)
 			fr.checkFrame(st, in)
 		}
